@@ -1127,3 +1127,10 @@ pub fn c_sqrt64_const(_x: f64) -> f64 {
 pub fn c_sqrt32_const(_x: f32) -> f32 {
     3.25
 }
+
+/// sqrt returning a value fixed by the harness (for harnesses over concrete parameters, where a symbolic root would
+/// make rand's Uniform::new_bounded loop unbounded)
+pub static mut FIXED_SQRT: f64 = 0.0;
+pub fn c_sqrt64_fixed(_x: f64) -> f64 {
+    unsafe { FIXED_SQRT }
+}
